@@ -1,4 +1,5 @@
 """C05 — types, constraints and default values survive compilation exactly."""
+import re
 from gen import mibgen
 from props import codegen_common as cg
 from props import c01
@@ -353,6 +354,8 @@ def run(ctx):
                             res.count('syntax:' + k)
         check_set(ctx, obs)
         basetype_stream(ctx, obs, reqs, metas)
+        if i % 4 == 0:
+            tolerated_spelling(ctx, obs)
         if True:
             # the same defaults through the pysnmp backend (sets drawn without the two constructs its template cannot load)
             obs2 = cg.run_set(base + 50000 + i, backends=('pysnmp',), exotic_defvals=True, pysnmp_safe=True)
@@ -360,6 +363,53 @@ def run(ctx):
     compare(ctx, reqs, metas)
     res.sample({'literal_case': metas[0][1], 'impl': metas[0][2]})
     res.sample({'module_text': list(obs['texts'].values())[0][:1200]})
+
+
+ENUM_BODY = re.compile(r'(INTEGER|Integer32)(\s*)\{([^{}]*)\}')
+
+
+def spaced_enums(text):
+    """the same module with every other comma of its enumerations left out (a spelling the relaxed grammar accepts)"""
+    def body(m):
+        k = [0]
+
+        def comma(c):
+            k[0] += 1
+            return ') ' if k[0] % 2 else c.group(0)
+        return m.group(1) + m.group(2) + '{' + re.sub(r'\)\s*,', comma, m.group(3)) + '}'
+    return ENUM_BODY.sub(body, text)
+
+
+def tolerated_spelling(ctx, obs):
+    """enumerations written with blanks instead of some commas (tolerated by the default, relaxed grammar) declare the
+    same labels: the JSON documents of both spellings are equal"""
+    import json
+    from impl import pipeline
+    res = ctx.res
+    texts2 = {m: spaced_enums(t) for m, t in obs['texts'].items()}
+    if texts2 == obs['texts']:
+        return
+    res.count('tolerated-spelling-sets')
+    inp = {'seed': obs['seed'], 'texts': texts2, 'plain_texts': obs['texts']}
+    try:
+        st, out, _ = pipeline.compile_set(texts2, backend='json', genTexts=True)
+    except Exception as e:
+        res.oracle_failures.append({'key': 'tolerated-spelling', 'what': 'compile raised %s: %s' % (type(e).__name__, e), 'input': inp})
+        return
+    for m in texts2:
+        want = obs['json'].get(m)
+        if want is None or '__invalid_json__' in want:
+            continue
+        if str(st.get(m)) != 'compiled':
+            res.oracle_failures.append({'key': 'tolerated-spelling', 'what': '%s with space-separated enumeration items: %s (%s)' % (
+                m, st.get(m), getattr(st.get(m), 'error', None)), 'input': inp})
+            return
+        got = json.loads(out[m])
+        bad = [k for k in sorted(set(want) | set(got)) if k != 'meta' and got.get(k) != want.get(k)]     # meta carries the time of day
+        if bad:
+            res.oracle_failures.append({'key': 'tolerated-spelling', 'what': '%s::%s differs when enumeration items are separated by blanks: %r, with commas %r' % (
+                m, bad[0] if bad else '?', str(got.get(bad[0]) if bad else None)[:300], str(want.get(bad[0]) if bad else None)[:300]), 'input': inp})
+            return
 
 
 def search(ctx):
@@ -370,6 +420,14 @@ def search(ctx):
 def replay(payload):
     import json
     from impl import pipeline
+    if payload.get('key') == 'tolerated-spelling':
+        i2 = payload['input']
+        try:
+            st1, out1, _ = pipeline.compile_set(i2['plain_texts'], backend='json', genTexts=True)
+            st2, out2, _ = pipeline.compile_set(i2['texts'], backend='json', genTexts=True)
+        except Exception:
+            return {'fails': True}
+        return {'fails': any(str(st1.get(m)) == 'compiled' and (str(st2.get(m)) != 'compiled' or dict(json.loads(out1[m]), meta=0) != dict(json.loads(out2[m]), meta=0)) for m in i2['texts'])}
     inp = payload['input']
     if 'alts' in inp:
         from pysmi.codegen.intermediate import IntermediateCodeGen
